@@ -1,8 +1,10 @@
 //! C16 — built-in pools always exist with reserves; liquidity tokens stay fully backed.
 use crate::alphabet::AlphaCfg;
+use crate::alphabet::actions;
 use crate::props::e1::*;
+use crate::stf::*;
 use crate::report::Run;
-use melstructs::NetID;
+use melstructs::{Denom, NetID, PoolKey};
 use serde_json::json;
 
 fn cfg_liquidity() -> AlphaCfg {
@@ -16,8 +18,31 @@ fn cfg_liquidity() -> AlphaCfg {
     c
 }
 
+/// Deposits and withdrawals only, on two pools, three requests per block: several requests per pool interleaved with another pool's.
+fn cfg_two_pools() -> AlphaCfg {
+    let mut c = cfg_liquidity();
+    c.swaps = false;
+    c.mints = false;
+    c.max_txs_per_block = 3;
+    c.only_pools = Some(vec![PoolKey::new(Denom::Mel, Denom::Sym), PoolKey::new(Denom::Mel, Denom::Erg)]);
+    c
+}
+
+/// Testnet before TIP-902: the ERG/SYM pool does not exist yet and can be created, and emptied, by users before it becomes built-in at 500.
+fn cfg_ergsym_before_902() -> AlphaCfg {
+    let mut c = cfg_liquidity();
+    c.swaps = false;
+    c.mints = false;
+    c.max_txs_per_block = 1;
+    c.only_pools = Some(vec![PoolKey::new(Denom::Erg, Denom::Sym)]);
+    c.jump_to = Some(498);
+    c
+}
+
 pub fn scenarios(thorough: bool) -> Vec<Scenario> {
     let mut v = vec![sc("custom02-liquidity", NetID::Custom02, 0, cfg_liquidity(), if thorough { 11 } else { 8 })];
+    v.push(sc("custom02-two-pools-three-requests-per-block", NetID::Custom02, 0, cfg_two_pools(), if thorough { 11 } else { 10 }));
+    v.push(sc("testnet-ergsym-before-tip902", NetID::Testnet, 0, cfg_ergsym_before_902(), if thorough { 13 } else { 11 }));
     if thorough {
         v.push(sc("testnet-liquidity", NetID::Testnet, 0, cfg_liquidity(), 8));
         v.push(sc("mainnet-liquidity", NetID::Mainnet, 0, cfg_liquidity(), 8));
@@ -26,7 +51,41 @@ pub fn scenarios(thorough: bool) -> Vec<Scenario> {
     v
 }
 
+/// A custom pool whose liquidity is entirely held by the wallet in two coins, next to liquidity tokens of a built-in pool; from there
+/// every block of up to three withdrawal requests (each in two hash variants) is explored.
+fn custom_pool_withdrawals(run: &Run, thorough: bool) {
+    let (_w, rootn) = root(NetID::Custom02, 0, true);
+    let scratch = Run::new("scratch", "quick");
+    let mut cfg = cfg_liquidity();
+    cfg.swaps = false;
+    cfg.max_txs_per_block = 3;
+    let prefix = ["open", "mint(", "seal(None)", "open", "deposit[MEL/C", "deposit-small[MEL/C", "deposit[MEL/SYM:canonical]", "seal(None)", "open", "deposit-small[MEL/C", "seal(None)"];
+    let start = match advance_by_labels(&scratch, rootn, &cfg, &prefix) {
+        Some(n) => n,
+        None => {
+            run.outcome("custom-pool-prefix-unavailable");
+            return;
+        }
+    };
+    let mut c2 = cfg.clone();
+    c2.deposits = false;
+    c2.mints = false;
+    c2.request_variants = true;
+    let eng = Engine::new(run);
+    if let StepOut::Next(o) = Engine::new(&scratch).step(&start, &Action::Open) {
+        run.set("alphabet_after_custom_pool_prefix", json!(actions(&o, &c2).iter().map(|a| a.label()).collect::<Vec<_>>()));
+        run.set("wallet_after_custom_pool_prefix", json!(crate::alphabet::wallet(&o.model).iter().map(|(id, c)| format!("{} {} {}", id, c.coin_data.value.0, crate::alphabet::dn(c.coin_data.denom))).collect::<Vec<_>>()));
+        run.set("path_of_custom_pool_prefix", json!(o.path_str()));
+    }
+    let acts = move |n: &Node| actions(n, &c2);
+    let visit = |_n: &Node| {};
+    let st = bfs(&eng, vec![start], if thorough { 8 } else { 5 }, 500_000, &acts, &visit);
+    run.set("scenario:custom-pool-withdrawals", json!({"prefix": prefix, "depth_bound_completed": st.depth_completed, "unique_states": st.states, "transitions": st.transitions}));
+    println!("  scenario custom-pool-withdrawals: depth {} states {} transitions {}", st.depth_completed, st.states, st.transitions);
+}
+
 pub fn run(run: &Run) {
+    custom_pool_withdrawals(run, run.thorough());
     for sc in scenarios(run.thorough()) {
         sample_alphabet(run, &sc);
         let st = run_scenario(run, &sc, 2_000_000);
